@@ -3,6 +3,7 @@ package main
 import (
 	"fmt"
 	"go/token"
+	"go/types"
 	"strings"
 
 	"golang.org/x/tools/go/ssa"
@@ -229,7 +230,15 @@ func c16R3(c *Ctx) {
 			return false
 		}
 		fa, ok := u.X.(*ssa.FieldAddr)
-		return ok && fieldOf(fa) == heightField && lc.at(fa.X) == ssa.Value(recv)
+		if !ok || fieldOf(fa) != heightField {
+			return false
+		}
+		// s.height, or s.<group>.height when the field sits in a small struct of its own
+		base := fa.X
+		if inner, isFA := base.(*ssa.FieldAddr); isFA {
+			base = inner.X
+		}
+		return lc.at(base) == ssa.Value(recv)
 	}
 	n := 0
 	// returns: resolve along every path; the number of distinct (return, shape) pairs is small
@@ -376,10 +385,57 @@ func c16R5(c *Ctx) {
 			return
 		}
 		stored, emitted := false, false
+		// a literal of the struct that groups the height with other fields, built from the reported height
+		litWithReported := func(v ssa.Value) bool {
+			ld, ok := v.(*ssa.UnOp)
+			if !ok || ld.Op != token.MUL {
+				return false
+			}
+			al, ok := ld.X.(*ssa.Alloc)
+			if !ok {
+				return false
+			}
+			for _, r := range refs(al) {
+				if fa, ok := r.(*ssa.FieldAddr); ok && fieldOf(fa) == heightField {
+					for _, rr := range refs(fa) {
+						if st, ok := rr.(*ssa.Store); ok && st.Addr == ssa.Value(fa) && unwrapLoad(st.Val) == ssa.Value(hp) {
+							return true
+						}
+					}
+				}
+			}
+			return false
+		}
+		groupOfRecv := func(v ssa.Value) bool {
+			ld, ok := v.(*ssa.UnOp)
+			if !ok || ld.Op != token.MUL {
+				return false
+			}
+			fa, ok := ld.X.(*ssa.FieldAddr)
+			if !ok || unwrapLoad(fa.X) != ssa.Value(sw.Params[0]) {
+				return false
+			}
+			st, ok := fieldOf(fa).Type().Underlying().(*types.Struct)
+			if !ok {
+				return false
+			}
+			for i := 0; i < st.NumFields(); i++ {
+				if st.Field(i) == heightField {
+					return true
+				}
+			}
+			return false
+		}
 		for _, b := range pf.blocks {
 			for _, in := range b.Instrs {
 				if st, ok := in.(*ssa.Store); ok {
 					if fa, ok := st.Addr.(*ssa.FieldAddr); ok && fieldOf(fa) == heightField && unwrapLoad(st.Val) == ssa.Value(hp) {
+						if _, intoLiteral := fa.X.(*ssa.Alloc); !intoLiteral {
+							stored = true
+						}
+					}
+					// s.<group> = group{…, height: height}
+					if fa, ok := st.Addr.(*ssa.FieldAddr); ok && unwrapLoad(fa.X) == ssa.Value(sw.Params[0]) && litWithReported(st.Val) {
 						stored = true
 					}
 				}
@@ -396,6 +452,14 @@ func c16R5(c *Ctx) {
 		cur := newLin()
 		cur.coef["recv.&height.*"] = 1
 		same := lc.proveEq(h.add(cur, -1))
+		// … or the whole group is known to be equal to one built from the reported size
+		for _, f := range pf.facts {
+			if cmp, ok := f.Cmp(); ok && cmp.Op == token.EQL {
+				if (groupOfRecv(cmp.X) && litWithReported(cmp.Y)) || (groupOfRecv(cmp.Y) && litWithReported(cmp.X)) {
+					same = true
+				}
+			}
+		}
 		tooSmall := lc.nonNeg(linConst(1).add(h, -1)) // height <= 1
 		where := "path through lines " + pathLines(P, pf)
 		c.check((stored && emitted) || same || tooSmall, name+"/takes-over-height", P.InstrPos(ret), name,
